@@ -27,6 +27,13 @@ class RecordingSource:
         self.array_calls = []
         self.bad = []
         self._lock = threading.Lock()
+        import uuid
+        self._uid = uuid.uuid4().hex
+
+    def __dask_tokenize__(self):
+        # one token per instance (kept through pickling): two recording sources with equal content must not be taken for
+        # one another by the name-keyed registries, or the reads of one would be logged on the other
+        return ("RecordingSource", self._uid)
 
     def __getstate__(self):
         # picklable (the lock is per process): a collection over a recording source can be serialised
@@ -640,3 +647,113 @@ def rewrite_targets(tier, rng):
                 out.append((f"1d/np/{c}/grid-consumer/{cname} over {iname}",
                             (lambda c=c, fi=fi, gi=gi, fc=fc, gc=gc: (fc(fi(da.from_array(d1g, chunks=(c,)))), gc(gi(d1g)), {}))))
     return out
+
+
+def naming_families():
+    """families of programs that differ in exactly one respect that matters for the array they denote (chunking with the same
+    number of blocks, a region of the same length, a closure cell, a configuration value, the data behind a user-supplied
+    name, ...): {family: [(label, build)]}, build() -> (collection, expected value or None, expected chunks or None).
+    Two members of a family must never share a name (or, sharing it, must be the same array)."""
+    import numpy as np
+    import dask
+    import dask_array as da
+    fam = {}
+
+    def add(family, label, build):
+        fam.setdefault(family, []).append((label, build))
+
+    # random arrays: same generator state, size and arguments, as many blocks, different block sizes / grids
+    for kind in ("generator", "randomstate"):
+        def rng(kind=kind, seed=1234):
+            return da.random.default_rng(seed) if kind == "generator" else da.random.RandomState(seed)
+        for dist in ("random", "normal", "integers"):
+            def draw(g, size, chunks, dist=dist, kind=kind):
+                if dist == "random":
+                    return g.random(size, chunks=chunks) if kind == "generator" else g.random_sample(size, chunks=chunks)
+                if dist == "normal":
+                    return g.normal(1.0, 2.0, size=size, chunks=chunks)
+                return g.integers(0, 50, size=size, chunks=chunks) if kind == "generator" else g.randint(0, 50, size=size, chunks=chunks)
+            for size, chunks in (((12, 12), (6, 4)), ((12, 12), (4, 6)), ((12, 12), (6, 6)), ((10,), ((5, 5),)), ((10,), ((4, 6),)), ((10,), ((6, 4),))):
+                add(f"random/{kind}/{dist}/{len(size)}d", f"chunks={chunks}",
+                    lambda rng=rng, draw=draw, size=size, chunks=chunks: (draw(rng(), size, chunks), None, da.core.normalize_chunks(chunks, size) if hasattr(da, "core") and hasattr(da.core, "normalize_chunks") else None))
+        add(f"random/{kind}/seeds", "seed 1", lambda rng=rng: (rng(seed=1).normal(size=(8,), chunks=4), None, ((4, 4),)))
+        add(f"random/{kind}/seeds", "seed 2", lambda rng=rng: (rng(seed=2).normal(size=(8,), chunks=4), None, ((4, 4),)))
+        add(f"random/{kind}/args", "loc 0", lambda rng=rng: (rng().normal(0.0, 1.0, size=(8,), chunks=4), None, ((4, 4),)))
+        add(f"random/{kind}/args", "loc 1", lambda rng=rng: (rng().normal(1.0, 1.0, size=(8,), chunks=4), None, ((4, 4),)))
+    # chunks="auto" resolved under different configurations
+    big = np.arange(10000.0)
+    for size in ("8 kB", "16 kB", "40 kB"):
+        def mk(size=size):
+            with dask.config.set({"array.chunk-size": size}):
+                x = da.from_array(big, chunks="auto")
+                ch = x.chunks
+            n = {"8 kB": 1000, "16 kB": 2000, "40 kB": 5000}[size]
+            return x, big, ((n,) * (10000 // n),)
+        add("from_array/auto-under-config", f"array.chunk-size={size}", mk)
+        def mk1(size=size):
+            with dask.config.set({"array.chunk-size": size}):
+                x = da.from_array(big, chunks="auto") + 1
+            return x, big + 1, None
+        add("from_array/auto-under-config/+1", f"array.chunk-size={size}", mk1)
+    # two sources given the same name by the user: the library must not confuse what it derives from them
+    for fname, prog, ref in (("[:5]+1", lambda t: t[:5] + 1, lambda a: a[:5] + 1), ("rechunk(2)", lambda t: t.rechunk(2), lambda a: a),
+                             ("[::2]", lambda t: t[::2], lambda a: a[::2]), ("rechunk(2)[1:]", lambda t: t.rechunk(2)[1:], lambda a: a[1:]),
+                             ("+1", lambda t: t + 1, lambda a: a + 1), ("[3]", lambda t: t[3], lambda a: a[3]),
+                             ("[2:8].rechunk(3).sum()", lambda t: t[2:8].rechunk(3).sum(), lambda a: a[2:8].sum()),
+                             ("[[4, 1]]", lambda t: t[[4, 1]], lambda a: a[[4, 1]])):
+        for label, data in (("zeros", np.zeros(10)), ("ones", np.ones(10)), ("arange", np.arange(10.0))):
+            add(f"from_array/user-name/{fname}", label,
+                lambda prog=prog, ref=ref, data=data: (prog(da.from_array(data, chunks=5, name="user-named")), ref(data), None))
+    # creation routines: as many blocks, other block sizes
+    for cname, mk, ref in (("ones", lambda c: da.ones((10,), chunks=c), np.ones(10)), ("zeros", lambda c: da.zeros((10,), chunks=c), np.zeros(10)),
+                           ("full", lambda c: da.full((10,), 7.0, chunks=c), np.full(10, 7.0)), ("arange", lambda c: da.arange(10, chunks=c), np.arange(10)),
+                           ("linspace", lambda c: da.linspace(0, 1, 10, chunks=c), np.linspace(0, 1, 10)),
+                           ("from_array", lambda c: da.from_array(np.arange(10.0), chunks=c), np.arange(10.0)),
+                           ("from_array.rechunk", lambda c: da.from_array(np.arange(10.0), chunks=10).rechunk(c), np.arange(10.0)),
+                           ("from_array+1.rechunk", lambda c: (da.from_array(np.arange(10.0), chunks=10) + 1).rechunk(c), np.arange(10.0) + 1),
+                           ("eye", lambda c: da.eye(10, chunks=c[0][0]) if c[0][0] in (5, 2) else da.eye(10, chunks=5), None)):
+        for c in (((5, 5),), ((4, 6),), ((6, 4),), ((2,) * 5,)):
+            if cname == "eye" and c[0][0] not in (5, 2):
+                continue
+            add(f"creation/{cname}", f"chunks={c}", lambda mk=mk, c=c, ref=ref, cname=cname: (mk(c), ref, None if cname == "eye" else c))
+    # regions of one source with the same length
+    base = np.arange(12.0) * 3 % 7
+    for a, b, s in ((0, 6, 1), (1, 7, 1), (2, 8, 1), (0, 12, 2), (1, 12, 2), (11, None, -2), (10, None, -2)):
+        add("region/same-length", f"[{a}:{b}:{s}]", lambda a=a, b=b, s=s: (da.from_array(base, chunks=4)[a:b:s], base[a:b:s], None))
+        add("region/same-length/+1", f"[{a}:{b}:{s}]", lambda a=a, b=b, s=s: ((da.from_array(base, chunks=4) + 1)[a:b:s], (base + 1)[a:b:s], None))
+    # functions that differ only in a closure cell / a default / a keyword
+    for k in (1, 2, 3):
+        add("map_blocks/closure-cell", f"k={k}", lambda k=k: (da.from_array(base, chunks=4).map_blocks(lambda b: b + k, dtype="f8"), base + k, None))
+        add("map_blocks/default", f"k={k}", lambda k=k: (da.from_array(base, chunks=4).map_blocks(lambda b, k=k: b * k, dtype="f8"), base * k, None))
+        add("map_blocks/keyword", f"k={k}", lambda k=k: (da.from_array(base, chunks=4).map_blocks(_add_kw, off=k, dtype="f8"), base + k, None))
+        add("map_overlap/depth", f"depth={k}", lambda k=k: (da.from_array(base, chunks=4).map_overlap(lambda b: b * 1.0, depth=k, boundary="none", trim=False), None, None))
+        add("roll/shift", f"shift={k}", lambda k=k: (da.roll(da.from_array(base, chunks=4), k), np.roll(base, k), None))
+        add("pad/width", f"width={k}", lambda k=k: (da.pad(da.from_array(base, chunks=4), k, mode="edge"), np.pad(base, k, mode="edge"), None))
+        add("reduction/split_every", f"split_every={k + 1}", lambda k=k: (da.from_array(base, chunks=2).sum(split_every=k + 1), base.sum(), None))
+        add("topk/k", f"k={k}", lambda k=k: (da.topk(da.from_array(base, chunks=4), k), np.sort(base)[::-1][:k], None))
+    # scalars that compare (and hash) equal but are not the same operand
+    for label, v in (("1", 1), ("1.0", 1.0), ("True", True), ("np.int8(1)", np.int8(1)), ("np.float32(1)", np.float32(1)), ("1+0j", 1 + 0j)):
+        add("elemwise/equal-scalars", label, lambda v=v: (da.from_array(np.arange(6, dtype="i2"), chunks=3) + v, np.arange(6, dtype="i2") + v, None))
+        add("full/equal-scalars", label, lambda v=v: (da.full((6,), v, chunks=3), np.full((6,), v), None))
+    for label, dt in (("f4", "f4"), ("f8", "f8"), ("i4", "i4"), ("i8", "i8"), ("c8", "c8")):
+        add("astype", label, lambda dt=dt: (da.from_array(base, chunks=4).astype(dt), base.astype(dt), None))
+        add("sum/dtype", label, lambda dt=dt: (da.from_array(base, chunks=4).sum(dtype=dt), base.sum(dtype=dt), None))
+    # shape changes with the same number of elements and blocks
+    sq = np.arange(36.0).reshape(6, 6)
+    add("reshape", "(36,)", lambda: (da.from_array(sq, chunks=(2, 6)).reshape(36), sq.reshape(36), None))
+    add("reshape", "(6,2,3)", lambda: (da.from_array(sq, chunks=(2, 6)).reshape(6, 2, 3), sq.reshape(6, 2, 3), None))
+    add("reshape", "(6,3,2)", lambda: (da.from_array(sq, chunks=(2, 6)).reshape(6, 3, 2), sq.reshape(6, 3, 2), None))
+    add("reshape", "(2,3,6)", lambda: (da.from_array(sq, chunks=(2, 6)).reshape(2, 3, 6), sq.reshape(2, 3, 6), None))
+    add("reshape", "(3,2,6)", lambda: (da.from_array(sq, chunks=(2, 6)).reshape(3, 2, 6), sq.reshape(3, 2, 6), None))
+    for ax in ((0, 1), (1, 0)):
+        add("transpose", f"axes={ax}", lambda ax=ax: (da.from_array(sq, chunks=(3, 2)).transpose(ax), sq.transpose(ax), None))
+    for ax in (0, 1):
+        add("take/axis", f"axis={ax}", lambda ax=ax: (da.take(da.from_array(sq, chunks=(3, 3)), [5, 0, 2], axis=ax), np.take(sq, [5, 0, 2], axis=ax), None))
+        add("cumsum/axis", f"axis={ax}", lambda ax=ax: (da.from_array(sq, chunks=(3, 3)).cumsum(axis=ax), sq.cumsum(axis=ax), None))
+        add("flip/axis", f"axis={ax}", lambda ax=ax: (da.flip(da.from_array(sq, chunks=(3, 3)), ax), np.flip(sq, ax), None))
+        add("concatenate/axis", f"axis={ax}", lambda ax=ax: (da.concatenate([da.from_array(sq, chunks=(3, 3))] * 2, axis=ax), np.concatenate([sq, sq], axis=ax), None))
+    for idx in ([5, 0, 2], [0, 5, 2], [2, 0, 5]):
+        add("take/indices", str(idx), lambda idx=idx: (da.from_array(sq, chunks=(3, 3))[idx], sq[idx], None))
+    for m in ((sq[:, 0] > 10), (sq[:, 0] > 20), (sq[:, 0] < 15)):
+        add("mask", str(m.astype(int).tolist()), lambda m=m: (da.from_array(sq, chunks=(3, 3))[da.from_array(m, chunks=3)], sq[m], None))
+    return fam
